@@ -41,6 +41,35 @@ class K:
         if key not in self._enums:
             self._enums[key] = Enum(self, name, values)
         return self._enums[key]
+
+    def make_array(self, type_: type[BaseType], n: int) -> type:
+        if (t := self._arrays.get((type_, n))) is None:
+            t = self._arrays[(type_, n)] = self._build("arr", n * type_.size)
+        return t
+
+    def reader(self, source: str, symbols: dict) -> object:
+        key = (source, *(t.__name__ for t in symbols.values()))
+        if (f := self._readers.get(key)) is None:
+            f = self._readers[key] = compile_it(source, symbols)
+        return f
+
+
+class P:
+    @classmethod
+    def _packer(cls):
+        try:
+            return cls.__dict__["__packer__"]
+        except KeyError:
+            cls.__packer__ = packer = _struct(cls.cs.endian, cls.packchar)
+            return packer
+
+
+@functools.lru_cache(None)
+def _decoder(encoding: str):
+    return codecs.getincrementaldecoder(encoding)()
+
+
+_SCRATCH = BytesIO()
 '''
 
 
@@ -130,7 +159,11 @@ def memo_gaps(fn: ast.FunctionDef) -> list[tuple[ast.AST, str]]:
         if not isinstance(st, ast.Assign):
             continue
         for t in st.targets:
-            if not (isinstance(t, ast.Subscript) and (chain(t.value) or ("",))[0] in ((me,) if me else ()) + tuple()):
+            if not isinstance(t, ast.Subscript):
+                continue
+            table_expr = resolve_local(fn, t.value) if isinstance(t.value, ast.Name) else t.value
+            if not (me and table_expr is not None and ((chain(table_expr) or ("",))[0] == me or
+                                                        (table_expr is not t.value and any(isinstance(x, ast.Name) and x.id == me for x in ast.walk(table_expr))))):
                 continue
             table = norm(t.value)
             # a memo is read back in the same function (get / in / subscript load)
@@ -154,7 +187,7 @@ def memo_gaps(fn: ast.FunctionDef) -> list[tuple[ast.AST, str]]:
             keys_only = sorted({norm(c.args[0]) for c in ast.walk(key_expr) if isinstance(c, ast.Call) and call_name(c) in ("tuple", "frozenset", "sorted", "list", "set")
                                 and len(c.args) == 1 and isinstance(c.args[0], ast.Name) and c.args[0].id in params
                                 and _mapping_param(fn, c.args[0].id)})
-            why = []
+            why = list(key_identity_gaps(fn, t.slice, getattr(fn, "_cls_methods", None)))
             if missing_params:
                 why.append(f"the key leaves out parameter(s) {missing_params}")
             if missing_state:
@@ -175,16 +208,153 @@ def _mapping_param(fn: ast.FunctionDef, name: str) -> bool:
     return any(isinstance(c, ast.Call) and norm(c.func) in (f"{name}.items", f"{name}.values", f"{name}.keys") for c in ast.walk(fn))
 
 
+
+MUTABLE_TYPE_ATTRS = {"size", "alignment", "dynamic", "fields", "__fields__", "lookup", "__align__", "num_entries", "type"}
+IMMUTABLE_CONSTRUCTORS = {"getLogger", "TypeVar", "compile", "namedtuple", "frozenset", "tuple", "MappingProxyType", "Struct", "object", "Lock", "RLock", "partial",
+                          "NewType", "ParamSpec", "local", "str", "bytes", "int", "float", "bool", "Path", "PurePath", "Enum", "IntEnum", "Literal"}
+
+
+def _params(fn: ast.FunctionDef) -> list[ast.arg]:
+    return [*fn.args.posonlyargs, *fn.args.args, *fn.args.kwonlyargs]
+
+
+def _reads_mutable_attr(fn: ast.FunctionDef, pname: str, cls_methods: dict[str, ast.FunctionDef] | None, depth: int = 1) -> str | None:
+    """Name of a mutable attribute of parameter ``pname`` that ``fn`` (or a method of the same class it hands the parameter to) reads."""
+    for x in ast.walk(fn):
+        if isinstance(x, ast.Attribute) and isinstance(x.value, ast.Name) and x.value.id == pname and x.attr in MUTABLE_TYPE_ATTRS and isinstance(x.ctx, ast.Load):
+            return x.attr
+        if isinstance(x, ast.Call) and call_name(x) == "len" and x.args and norm(x.args[0]) == pname:
+            return "size"
+    if depth and cls_methods:
+        for c in ast.walk(fn):
+            if isinstance(c, ast.Call) and isinstance(c.func, ast.Attribute) and isinstance(c.func.value, ast.Name) and c.func.value.id in ("self", "cls") and c.func.attr in cls_methods:
+                callee = cls_methods[c.func.attr]
+                if callee is fn:
+                    continue
+                cps = [a.arg for a in _params(callee)][1:]
+                for i, a in enumerate(c.args):
+                    if isinstance(a, ast.Name) and a.id == pname and i < len(cps):
+                        got = _reads_mutable_attr(callee, cps[i], cls_methods, depth - 1)
+                        if got:
+                            return got
+                for k in c.keywords:
+                    if k.arg and isinstance(k.value, ast.Name) and k.value.id == pname and k.arg in cps:
+                        got = _reads_mutable_attr(callee, k.arg, cls_methods, depth - 1)
+                        if got:
+                            return got
+    return None
+
+
+def key_identity_gaps(fn: ast.FunctionDef, key: ast.AST, cls_methods: dict[str, ast.FunctionDef] | None = None) -> list[str]:
+    """A key that names an object by something weaker than the object (its name, its id, its repr), or by a mutable object whose state the
+    cached value was computed from."""
+    key = resolve_local(fn, key) if isinstance(key, ast.Name) else key
+    out = []
+    comps = [key]
+    for x in ast.walk(key):
+        if isinstance(x, ast.Name) and isinstance(x.ctx, ast.Load):
+            v = resolve_local(fn, x, 1)
+            if v is not x and v is not None:
+                comps.append(v)
+    seen = set()
+    for comp in comps:
+        for x in ast.walk(comp):
+            if isinstance(x, ast.Attribute) and x.attr in ("__name__", "__qualname__") and "name" not in seen:
+                seen.add("name")
+                out.append(f"the key names an object by '{short(x, 30)}': two different objects of the same name share one entry")
+            elif isinstance(x, ast.Call) and call_name(x) in ("id", "repr", "str", "hash") and x.args and not isinstance(x.args[0], ast.Constant) and "id" not in seen:
+                seen.add("id")
+                out.append(f"the key uses '{short(x, 30)}': ids are reused and reprs are not identities, a later object can hit an earlier entry")
+    pnames = {a.arg: a for a in _params(fn)}
+    for x in ast.walk(key):
+        if isinstance(x, ast.Name) and x.id in pnames and x.id not in ("self", "cls"):
+            sc = _scalar_annotation(pnames[x.id].annotation)
+            if sc is True:
+                continue
+            attr = _reads_mutable_attr(fn, x.id, cls_methods)
+            if attr:
+                out.append(f"the key holds the object '{x.id}' while the cached value is computed from its '{attr}', which changes when the type is extended "
+                           "(add_field / commit): the entry made for its earlier state is handed out afterwards")
+                break
+    return out
+
+
+def attribute_cache_gaps(fn: ast.FunctionDef) -> list[tuple[ast.AST, str]]:
+    """``cls.X = <computed>`` that the same function reads back (cls.X / cls.__dict__["X"] / getattr / hasattr): a cache without a key."""
+    ps = [a.arg for a in _params(fn)]
+    me = ps[0] if ps and ps[0] in ("cls",) else None
+    if me is None:
+        return []
+    out = []
+    for st in walk_body(fn.body):
+        if not isinstance(st, ast.Assign):
+            continue
+        for t in st.targets:
+            if isinstance(t, ast.Attribute) and isinstance(t.value, ast.Name) and t.value.id == me:
+                attr = t.attr
+                read_back = any((isinstance(x, ast.Subscript) and norm(x.value) == f"{me}.__dict__" and isinstance(x.slice, ast.Constant) and x.slice.value == attr and isinstance(x.ctx, ast.Load)) or
+                                (isinstance(x, ast.Call) and call_name(x) in ("getattr", "hasattr") and len(x.args) >= 2 and norm(x.args[0]) == me and isinstance(x.args[1], ast.Constant) and x.args[1].value == attr) or
+                                (isinstance(x, ast.Call) and norm(x.func) == f"{me}.__dict__.get" and x.args and isinstance(x.args[0], ast.Constant) and x.args[0].value == attr) or
+                                (isinstance(x, ast.Compare) and isinstance(x.left, ast.Constant) and x.left.value == attr and norm(x.comparators[0]) in (f"{me}.__dict__", f"vars({me})"))
+                                for x in ast.walk(fn))
+                if not read_back:
+                    continue
+                vnames, vstate = _deps(fn, st.value, me)
+                state_chain = sorted({norm(x) for x in ast.walk(st.value) if isinstance(x, ast.Attribute) and norm(x).startswith(f"{me}.cs.")} |
+                                     {norm(x) for n_ in ast.walk(st.value) if isinstance(n_, ast.Name) for x in ast.walk(resolve_local(fn, n_, 1) or n_)
+                                      if isinstance(x, ast.Attribute) and norm(x).startswith(f"{me}.cs.")})
+                dep_params = sorted(p for p in ps[1:] if p in vnames)
+                if state_chain or dep_params:
+                    out.append((t, f"'{me}.{attr}' is computed once and read back on later calls, but depends on {state_chain or dep_params}: a changed setting "
+                                   f"(byte order, pointer type) or another argument gets the value of the first call"))
+    return out
+
+
+def stateful_result(fn: ast.FunctionDef) -> str | None:
+    """A cached function that hands out a freshly constructed stateful object (the same one to every caller)."""
+    for r in walk_body(fn.body):
+        if isinstance(r, ast.Return) and r.value is not None:
+            v = resolve_local(fn, r.value) if isinstance(r.value, ast.Name) else r.value
+            if isinstance(v, ast.Call):
+                if isinstance(v.func, ast.Call):
+                    return short(v, 50)
+                nm = call_name(v) or ""
+                if nm[:1].isupper() and nm not in IMMUTABLE_CONSTRUCTORS:
+                    return short(v, 50)
+    return None
+
+
+def module_objects(tree: ast.Module) -> list[tuple[str, ast.AST]]:
+    """Module-level names bound at import time to an object built by a call that is not a known immutable / by-design-shared constructor."""
+    out = []
+    for st in tree.body:
+        tgt = val = None
+        if isinstance(st, ast.Assign) and len(st.targets) == 1 and isinstance(st.targets[0], ast.Name):
+            tgt, val = st.targets[0].id, st.value
+        elif isinstance(st, ast.AnnAssign) and isinstance(st.target, ast.Name) and st.value is not None:
+            tgt, val = st.target.id, st.value
+        if tgt and isinstance(val, ast.Call):
+            nm = (call_name(val) or norm(val.func)).split(".")[-1]
+            if nm not in IMMUTABLE_CONSTRUCTORS and nm not in ("dict", "list", "set", "defaultdict", "OrderedDict", "count"):
+                out.append((tgt, val))
+    return out
+
+
 def memo_rule(repo: Repo, rep: Report, rid: str) -> None:
-    rep.rule(rid, "memoisation never outlives its inputs (whole package): a function cached with lru_cache / cache takes only immutable scalar arguments; a "
-                  "hand-written memo on self / cls is keyed by every parameter and every attribute of self its value is computed from, and by the items "
-                  "(not just the names) of a mapping parameter")
+    rep.rule(rid, "memoisation never outlives its inputs (whole package): a function cached with lru_cache / cache takes only immutable scalar arguments and "
+                  "returns no stateful object; a hand-written memo on self / cls is keyed by every parameter and every attribute of self its value is computed "
+                  "from, by the items (not just the names) of a mapping parameter, by objects rather than their names / ids, and not by a type object whose "
+                  "size the value froze; no keyless attribute cache on a class depends on settings or arguments; no module-level scratch object is worked on")
     fx = ast.parse(FIXTURE)
     fx_dec = [(f, decorator_cache_gaps(f)) for f, _ in find_decorator_caches(fx)]
     fx_memo = [g for f in ast.walk(fx) if isinstance(f, ast.FunctionDef) for g in memo_gaps(f)]
-    if len(fx_dec) != 1 or not fx_dec[0][1] or len(fx_memo) != 2:
-        raise AnalysisError(f"memo matchers no longer recognise their positive fixture (decorator {len(fx_dec)}, memo {len(fx_memo)})")
-    rep.ok(rid, "fixture:lru_cache over a class / memo keyed by target only / memo keyed by tuple(dict)", "matchers recognise the three positive fixtures", "", nontrivial=False)
+    fx_attr = [g for f in ast.walk(fx) if isinstance(f, ast.FunctionDef) for g in attribute_cache_gaps(f)]
+    fx_stateful = [stateful_result(f) for f, _ in find_decorator_caches(fx)]
+    if len(fx_dec) != 2 or not fx_dec[0][1] or len(fx_memo) != 4 or len(fx_attr) != 1 or not any(fx_stateful) or len(module_objects(fx)) != 1:
+        raise AnalysisError(f"memo matchers no longer recognise their positive fixture (decorator {len(fx_dec)}, memo {len(fx_memo)}, attribute {len(fx_attr)}, "
+                            f"stateful {fx_stateful}, module objects {len(module_objects(fx))})")
+    rep.ok(rid, "fixture:lru_cache over a class / memo keyed by target only / by tuple(dict) / by a mutable type / by names / attribute cache / stateful result / module scratch object",
+           "matchers recognise the eight positive fixtures", "", nontrivial=False)
     ndec = 0
     for mod in repo.modules.values():
         for f, how in find_decorator_caches(mod.tree):
@@ -195,9 +365,24 @@ def memo_rule(repo: Repo, rep: Report, rid: str) -> None:
             rep.check(not gaps, rid, f"{mod.rel}:{f.name}:cached", f"{how}: keyed by immutable scalars {sorted(params)}",
                       f"{f.name} is cached ({how}) but {gaps[0] if gaps else ''}: after that object changes in place (add_field / commit, a changed setting) the "
                       "cached result of the earlier state is returned", f"{mod.path}:{f.lineno}")
+            sr = stateful_result(f)
+            rep.check(sr is None, rid, f"{mod.rel}:{f.name}:cached result", "the cached result is an immutable value",
+                      f"{f.name} is cached ({how}) and returns '{sr}', a freshly built stateful object: every caller (every thread, every nested parse) gets the "
+                      "same object and sees what the others left in it", f"{mod.path}:{f.lineno}")
     rep.floor(rid, "decorator caches", ndec, 2)
+    for mod in repo.modules.values():
+        for name, val in module_objects(mod.tree):
+            users = [fi for fi in mod.functions.values() if any(isinstance(x, ast.Name) and x.id == name and isinstance(x.ctx, ast.Load) for x in ast.walk(fi.node))]
+            rep.check(not users, rid, f"{mod.rel}:{name}:module object", "not used by any function",
+                      f"module-level '{name} = {short(val, 40)}' is one object for the whole process and {users[0].qualname if users else ''} works on it: "
+                      "overlapping calls (threads, re-entrant dumps / parses) and consecutive calls share its contents", f"{mod.path}:{getattr(val, 'lineno', 0)}")
     nmemo = 0
     for fi in repo.all_functions():
+        if fi.cls is not None:
+            fi.node._cls_methods = {q.split(".", 1)[1]: f.node for q, f in fi.module.functions.items() if q.startswith(fi.cls.name + ".") and q.count(".") == 1}
+        for st, why in attribute_cache_gaps(fi.node):
+            nmemo += 1
+            rep.fail(rid, f"{fi.key}:attribute cache {short(st, 40)}", f"{fi.qualname}: {why}", fi.loc(st))
         gaps = memo_gaps(fi.node)
         for st, why in gaps:
             nmemo += 1
